@@ -257,6 +257,8 @@ func (a *NodeActor) tryJoinSeeds(ctx vivid.ActorContext, seeds []string) error {
 				a.nodeState.LogicalClock = 1
 			}
 			a.clusterView.AddMember(a.nodeState)
+			// 新实例的条目也是一次本地视图变更：不递增版本则各节点会认为对方视图不比自己旧而跳过同步，旧实例的条目永远留在未直接收到本次广播的节点上
+			a.incrementLocalVersion()
 		}
 		a.events.PublishLeaderIfChanged(ctx, a.clusterView, a.nodeState.Address, a.quorumCalc.SatisfiesQuorum(a.clusterView))
 		a.broadcastViewOnce(ctx)
